@@ -190,12 +190,14 @@ func (w *Witness) Update(ctx context.Context, logID string, nextRaw []byte, pf [
 		// If there was nothing stored already then treat this new
 		// STH as trust-on-first-use (TOFU).
 		if status.Code(err) == codes.NotFound {
-			if err := w.setSTH(tx, logID, nextRaw); err != nil {
-				return nil, fmt.Errorf("couldn't set TOFU STH: %v", err)
-			}
+			// Sign before storing: setSTH commits, and a failed signature must not
+			// leave a stored STH behind an error reply.
 			signed, err := w.signSTH(next)
 			if err != nil {
 				return nil, fmt.Errorf("couldn't sign STH: %v", err)
+			}
+			if err := w.setSTH(tx, logID, nextRaw); err != nil {
+				return nil, fmt.Errorf("couldn't set TOFU STH: %v", err)
 			}
 			return signed, nil
 		}
@@ -223,14 +225,14 @@ func (w *Witness) Update(ctx context.Context, logID string, nextRaw []byte, pf [
 		// Complain if the STHs aren't consistent.
 		return prevRaw, status.Errorf(codes.FailedPrecondition, "failed to verify consistency proof: %v", err)
 	}
-	// If the consistency proof is good we store the raw STH and return the
-	// signed one.
-	if err := w.setSTH(tx, logID, nextRaw); err != nil {
-		return nil, fmt.Errorf("failed to store new STH: %v", err)
-	}
+	// If the consistency proof is good we sign the STH, store the raw one
+	// (setSTH commits) and return the signed one.
 	signed, err := w.signSTH(next)
 	if err != nil {
 		return nil, fmt.Errorf("failed to sign new STH: %v", err)
+	}
+	if err := w.setSTH(tx, logID, nextRaw); err != nil {
+		return nil, fmt.Errorf("failed to store new STH: %v", err)
 	}
 	return signed, nil
 }
